@@ -23,6 +23,9 @@ def run(tier):
                 known.append(k['signature'])
     jobs, gsub, _ = common_jobs('normal', 'g_normal', 'normal_why', tier, known, gsub_quick=7919, gsub_thorough=499)
     jobs = [j for j in jobs if j.func == 'g_normal']        # normal forms are claimed for scripts of the grammar only
+    # parentheses with every filling of blanks around their contents (incl. none): explicit partitions by context
+    jobs += [chrun.Job(M, 'parens', 300 if tier == 'quick' else 1200, subst={'PART = -1': f'PART = {x_}'}, label=f'parens[context {x_}]', twin=(x_ == 0),
+                       explain=lambda mod_, a: dict(why=mod_.parens_why(*a[0]))) for x_ in range(6)]
     res = chrun.run_jobs(jobs)
 
     def mk(r):
@@ -34,6 +37,7 @@ def run(tier):
     chrun.settle(chk, res, classify=lambda r: ':'.join((((r.get('explain') or {}).get('why')) or 'normal-form:violated').split(':')[:2]), make_replay=mk)
     chk.level = 'exploration'
     chk.bounds = dict(grammar=f'a 1/{gsub} slice (VERIF_SEED) of 544 320 grammar scripts x 15 option sets (strip_whitespace alone, operators alone, reindent with 8 sub-option combinations, aligned)',
+                      parentheses='6 contents (empty, items, subquery, nested, blank-only nested) x 3 x 3 blank fillings after `(` / before `)` x 6 contexts x 3 option sets: normal forms',
                       outside='other option combinations and widths; scripts outside the generator')
     chk.extra['rule'] = 'one evaluation = one CrossHair condition (a partition of the script x option space explored to exhaustion); distinct = conditions confirmed over all paths'
     chk.states = len(jobs)
